@@ -1,43 +1,62 @@
 //go:build verif
 
-package fourq
+package fourq_test
 
-// C14 for ecc/fourq: the exported Point API (Unmarshal, Marshal, IsOnCurve, IsIdentity, Add,
+// C14 for ecc/fourq: the exported fourq.Point API (Unmarshal, Marshal, IsOnCurve, IsIdentity, Add,
 // ScalarMult, ScalarBaseMult) over fixed alphabets of encodings, points and scalars under each
-// configuration. Observers: Marshal bytes, the canonical affine coordinates (Fq.toBytes, which
-// reduces), and the predicates. Back-ends: generic Go (purego), amd64 legacy and BMI2 (MULX) paths.
+// configuration. Observers: Marshal bytes, the canonical affine coordinates (the exported
+// coordinate bytes reduced modulo 2^127-1 by the harness), and the predicates. Back-ends: generic Go (purego), amd64 legacy and BMI2 (MULX) paths.
 
 import (
-	"encoding/binary"
 	"fmt"
+	"math/big"
 	"testing"
 
+	"github.com/cloudflare/circl/ecc/fourq"
 	"github.com/cloudflare/circl/internal/verifc14"
 	"github.com/cloudflare/circl/internal/verifmc"
 )
 
-func c14Observe(d *verifc14.D, label string, P *Point) {
+func c14Observe(d *verifc14.D, label string, P *fourq.Point) {
 	Q := *P // observers reduce in place
-	var enc [Size]byte
+	var enc [fourq.Size]byte
 	Q.Marshal(&enc)
 	d.Bytes(label+".marshal", enc[:])
-	Q = *P
-	var xy [4 * SizeFp]byte
-	Q.X.toBytes(xy[:2*SizeFp])
-	Q.Y.toBytes(xy[2*SizeFp:])
-	d.Bytes(label+".xy", xy[:])
+	// canonical affine coordinates: the four exported 16-byte field elements reduced modulo 2^127-1 here (math/big)
+	var xy []byte
+	for _, e := range []*fourq.Fp{&P.X[0], &P.X[1], &P.Y[0], &P.Y[1]} {
+		xy = append(xy, c14Canon(e)...)
+	}
+	d.Bytes(label+".xy", xy)
 	Q = *P
 	d.Bool(label+".oncurve", Q.IsOnCurve())
 	Q = *P
 	d.Bool(label+".identity", Q.IsIdentity())
 }
 
-type c14Pt struct {
-	name string
-	P    Point
+var c14P127 = new(big.Int).Sub(new(big.Int).Lsh(big.NewInt(1), 127), big.NewInt(1))
+
+// c14Canon: little-endian 16-byte canonical form of a (possibly unreduced) element of GF(2^127-1).
+func c14Canon(e *fourq.Fp) []byte {
+	be := make([]byte, fourq.SizeFp)
+	for i := range be {
+		be[i] = e[fourq.SizeFp-1-i]
+	}
+	v := new(big.Int).SetBytes(be)
+	v.Mod(v, c14P127)
+	out := v.FillBytes(make([]byte, fourq.SizeFp))
+	for i, j := 0, len(out)-1; i < j; i, j = i+1, j-1 {
+		out[i], out[j] = out[j], out[i]
+	}
+	return out
 }
 
-func c14Arr(b []byte) *[Size]byte { a := new([Size]byte); copy(a[:], b); return a }
+type c14Pt struct {
+	name string
+	P    fourq.Point
+}
+
+func c14Arr(b []byte) *[fourq.Size]byte { a := new([fourq.Size]byte); copy(a[:], b); return a }
 
 // c14Alpha holds the alphabets shared by the three FourQ units.
 type c14Alpha struct {
@@ -62,13 +81,13 @@ func c14Alphabets(r *verifmc.Run) *c14Alpha {
 	for i, b := range verifc14.OneLimbAway(4, []uint64{3, 1<<32 - 1, 1 << 32, b62 - 1, b62 + 1, b63 - 2, b63 + 1, m1 - 1}) {
 		addE(fmt.Sprintf("away%d", i), b)
 	}
-	for i, b := range verifc14.Pseudo("fourq-enc", r.Pick(64, 512), Size) {
+	for i, b := range verifc14.Pseudo("fourq-enc", r.Pick(64, 512), fourq.Size) {
 		addE(fmt.Sprintf("pseudo%d", i), b)
 	}
 	// scalars
-	order := make([]byte, Size)
-	for i, w := range orderGenerator {
-		binary.LittleEndian.PutUint64(order[8*i:], w)
+	order := fourq.Params().N.FillBytes(make([]byte, fourq.Size)) // exported curve parameter
+	for i, j := 0, len(order)-1; i < j; i, j = i+1, j-1 {
+		order[i], order[j] = order[j], order[i]
 	}
 	seenS := map[string]bool{}
 	addS := func(name string, b []byte) {
@@ -79,18 +98,18 @@ func c14Alphabets(r *verifmc.Run) *c14Alpha {
 	}
 	for k := -3; k <= 3; k++ {
 		addS(fmt.Sprintf("N%+d", k), verifc14.AddSmall(order, k))
-		addS(fmt.Sprintf("0%+d", k), verifc14.AddSmall(make([]byte, Size), k))
+		addS(fmt.Sprintf("0%+d", k), verifc14.AddSmall(make([]byte, fourq.Size), k))
 	}
-	for i, s := range verifmc.Seeds(Size, r.Seed()) {
+	for i, s := range verifmc.Seeds(fourq.Size, r.Seed()) {
 		addS(fmt.Sprintf("seed%d", i), s)
 	}
 	for i, b := range verifc14.LimbProduct(4, verifc14.LimbEdge) {
 		addS(fmt.Sprintf("limbs%d", i), b)
 	}
-	for i, b := range verifc14.SingleBits(Size) {
+	for i, b := range verifc14.SingleBits(fourq.Size) {
 		addS(fmt.Sprintf("bit%d", i), b)
 	}
-	for i, b := range verifc14.Pseudo("fourq-scalar", r.Pick(8, 64), Size) {
+	for i, b := range verifc14.Pseudo("fourq-scalar", r.Pick(8, 64), fourq.Size) {
 		addS(fmt.Sprintf("pseudo%d", i), b)
 	}
 	al.keyScal = append(append([]verifc14.Named{}, al.scal[:14]...), verifc14.Thin(al.scal[14:], r.Pick(24, 96))...)
@@ -108,18 +127,18 @@ const c14Rule = "encodings: every 32-byte string with limbs in {0,1,2,2^62,2^63-
 // Add with itself and with G, ScalarMult by three scalars.
 func TestVerifC14_fourq_unmarshal(t *testing.T) {
 	c := verifc14.Start(t, "fourq_unmarshal")
-	c.Backend("ecc/fourq.hasBMI2", c14Backend(), verifc14.Bmi2Sel)
+	c.BackendOptional("ecc/fourq.hasBMI2", fourq.C14ReadBackend, verifc14.Bmi2Sel)
 	r := c.R
 	al := c14Alphabets(r)
 	r.Rule(c14Rule + "a case = Unmarshal of one encoding: ok flag, input buffer afterwards and, when accepted, Marshal, canonical coordinates, predicates of P, P+P, P+G and [k]P for three scalars")
 	r.NotExhaustive("declared alphabet of encodings")
-	var G Point
+	var G fourq.Point
 	G.SetGenerator()
 	verifmc.ParallelFor(len(al.encs), func(i int) {
 		e := al.encs[i]
 		c.Case("Unmarshal#"+e.Name, func(d *verifc14.D) {
 			in := c14Arr(e.V)
-			var P Point
+			var P fourq.Point
 			ok := P.Unmarshal(in)
 			d.Exec(1)
 			d.Bool("ok", ok)
@@ -130,7 +149,7 @@ func TestVerifC14_fourq_unmarshal(t *testing.T) {
 			}
 			r.Count("unmarshal_accepted", 1)
 			c14Observe(d, "P", &P)
-			var S Point
+			var S fourq.Point
 			Q, R := P, P
 			S.Add(&Q, &R)
 			c14Observe(d, "P+P", &S)
@@ -154,7 +173,7 @@ func TestVerifC14_fourq_unmarshal(t *testing.T) {
 // TestVerifC14_fourq_basemult: ScalarBaseMult of every scalar.
 func TestVerifC14_fourq_basemult(t *testing.T) {
 	c := verifc14.Start(t, "fourq_basemult")
-	c.Backend("ecc/fourq.hasBMI2", c14Backend(), verifc14.Bmi2Sel)
+	c.BackendOptional("ecc/fourq.hasBMI2", fourq.C14ReadBackend, verifc14.Bmi2Sel)
 	r := c.R
 	al := c14Alphabets(r)
 	r.Rule(c14Rule + "a case = ScalarBaseMult of one scalar: Marshal, canonical coordinates, predicates")
@@ -162,7 +181,7 @@ func TestVerifC14_fourq_basemult(t *testing.T) {
 	verifmc.ParallelFor(len(al.scal), func(i int) {
 		k := al.scal[i]
 		c.Case("ScalarBaseMult#k="+k.Name, func(d *verifc14.D) {
-			var P Point
+			var P fourq.Point
 			P.ScalarBaseMult(c14Arr(k.V))
 			d.Exec(1)
 			c14Observe(d, "kG", &P)
@@ -180,22 +199,22 @@ func TestVerifC14_fourq_basemult(t *testing.T) {
 // encodings (each included only if this back-end accepts it; the case list is therefore itself an output).
 func TestVerifC14_fourq_arith(t *testing.T) {
 	c := verifc14.Start(t, "fourq_arith")
-	c.Backend("ecc/fourq.hasBMI2", c14Backend(), verifc14.Bmi2Sel)
+	c.BackendOptional("ecc/fourq.hasBMI2", fourq.C14ReadBackend, verifc14.Bmi2Sel)
 	r := c.R
 	al := c14Alphabets(r)
 	r.Rule(c14Rule + "points: G, identity, [k]G for 12 key scalars, every accepted one of a fixed thinned list of encodings; cases: ScalarMult (one point, digest over all key scalars) and Add (one point, digest over all key points)")
 	r.NotExhaustive("declared alphabets of scalars and points")
-	var G, I Point
+	var G, I fourq.Point
 	G.SetGenerator()
 	I.SetIdentity()
 	pts := []c14Pt{{"G", G}, {"identity", I}}
 	for i, k := range al.keyScal[:12] {
-		var P Point
+		var P fourq.Point
 		P.ScalarBaseMult(c14Arr(k.V))
 		pts = append(pts, c14Pt{fmt.Sprintf("[%s]G/%d", k.Name, i), P})
 	}
 	for _, e := range verifc14.Thin(al.encs, r.Pick(120, 600)) {
-		var P Point
+		var P fourq.Point
 		if P.Unmarshal(c14Arr(e.V)) {
 			pts = append(pts, c14Pt{"dec(" + e.Name + ")", P})
 		}
@@ -205,7 +224,7 @@ func TestVerifC14_fourq_arith(t *testing.T) {
 		Pi := pts[i]
 		c.Case(fmt.Sprintf("ScalarMult#P=%s", Pi.name), func(d *verifc14.D) {
 			for _, k := range al.keyScal {
-				var S Point
+				var S fourq.Point
 				Q := Pi.P
 				S.ScalarMult(c14Arr(k.V), &Q)
 				d.Exec(1)
@@ -214,7 +233,7 @@ func TestVerifC14_fourq_arith(t *testing.T) {
 		})
 		c.Case(fmt.Sprintf("Add#P=%s", Pi.name), func(d *verifc14.D) {
 			for _, Qj := range pts {
-				var S Point
+				var S fourq.Point
 				Q, R := Pi.P, Qj.P
 				S.Add(&Q, &R)
 				d.Exec(1)
